@@ -189,7 +189,7 @@ def tlc(module, cfg=None, env=None, workers="auto", simulate=None, depth=None, s
     m = re.search(r"Error: Action property (\w+) is violated", text)
     if m:
         r.violation = ("property", m.group(1))
-    if "Temporal properties were violated" in text:
+    if "Temporal properties were violated" in text or re.search(r"Temporal property \w+ was violated", text):
         r.violation = ("temporal", "liveness")
     m = re.search(r"Error: The postcondition (\w+)? ?.*is violated|Checking of postcondition .* failed", text)
     if "ostcondition" in text and ("violated" in text or "failed" in text) and r.violation is None:
